@@ -127,4 +127,42 @@ def decode (dim : Nat) (bs : Bytes) : Option (Option File × Bytes) :=
     let (edges, bs) ← decEdgeGroups shards bs
     pure (some ⟨entry, shards, edges⟩, bs)
 
+/-! ### header (`Save(w, true)`): the configuration, the dimension and the metric -/
+
+structure Header where
+  algo : Nat          -- uint32
+  levelMult : Nat     -- float32 bits
+  ef : Nat            -- int32, written as two's complement; non-negative here
+  efC : Nat
+  m : Nat
+  mMax : Nat
+  mMax0 : Nat
+  dim : Nat           -- uint32
+  space : Nat         -- uint8
+deriving Repr, DecidableEq
+
+def encHeader (h : Header) : Bytes :=
+  beBytes 4 h.algo ++ beBytes 4 h.levelMult ++ beBytes 4 h.ef ++ beBytes 4 h.efC ++ beBytes 4 h.m ++
+  beBytes 4 h.mMax ++ beBytes 4 h.mMax0 ++ beBytes 4 h.dim ++ beBytes 1 h.space
+
+def decHeader (bs : Bytes) : Option (Header × Bytes) := do
+  let (algo, bs) ← readBE 4 bs
+  let (lm, bs) ← readBE 4 bs
+  let (ef, bs) ← readBE 4 bs
+  let (efC, bs) ← readBE 4 bs
+  let (m, bs) ← readBE 4 bs
+  let (mMax, bs) ← readBE 4 bs
+  let (mMax0, bs) ← readBE 4 bs
+  let (dim, bs) ← readBE 4 bs
+  let (sp, bs) ← readBE 1 bs
+  pure (⟨algo, lm, ef, efC, m, mMax, mMax0, dim, sp⟩, bs)
+
+/-- `Save(w, true)` / `Load(r, true)`: the header decides the dimension -/
+def encodeH (h : Header) (f : Option File) : Bytes := encHeader h ++ encode f
+
+def decodeH (bs : Bytes) : Option (Header × Option File × Bytes) := do
+  let (h, bs) ← decHeader bs
+  let (f, bs) ← decode h.dim bs
+  pure (h, f, bs)
+
 end Anndb.Codec
